@@ -450,6 +450,7 @@ func c20(c *core.Check) {
 	c20EscapeTerminator(c)
 	c20HexEscapesEndWithSpace(c)
 	c20BackslashNewline(c)
+	c20IdentFuses(c)
 	r4 := c.Rule("R4", "serializeStringValue escapes \", \\, LF, CR, FF; serializeURL additionally ', space, TAB, ( and ); serializeName passes through only [A-Za-z0-9_-] and non-ASCII", 6)
 	// an escaped leading digit (or control character) of an identifier is a hexadecimal escape: it must end with a space
 	if si := p.Fn("css/parser", "serializeIdentifier"); si == nil {
@@ -582,13 +583,49 @@ func c20(c *core.Check) {
 				}
 			}
 		}
+		need := e.need
+		tableOK := map[rune]bool{}
+		if e.fn == "serializeURL" {
+			// reader's table: every character the tokenizer refuses in an unquoted URL (constant sets tested in consumeUrl)
+			refused := c20RefusedInURL(p)
+			need = append(append([]rune{}, need...), refused...)
+			// writer's side: a test of the character against a constant set whose true branch never reaches string(c)
+			core.Instrs(fn, func(in ssa.Instruction) {
+				call, ok := in.(*ssa.Call)
+				if !ok {
+					return
+				}
+				callee := call.Call.StaticCallee()
+				if callee == nil || callee.Pkg == nil || callee.Pkg.Pkg.Path() != "strings" || (callee.Name() != "ContainsRune" && callee.Name() != "IndexRune") || len(call.Call.Args) != 2 {
+					return
+				}
+				set, ok := core.ConstStr(call.Call.Args[0])
+				if !ok || callee.Name() != "ContainsRune" {
+					return
+				}
+				reach := core.ForwardReach(fn.Blocks[0], map[ssa.Value]bool{call: true}, nil)
+				raw := false
+				core.Instrs(fn, func(in2 ssa.Instruction) {
+					if cv, ok := in2.(*ssa.Convert); ok && reach[in2.Block()] && cv.Block() != call.Block() && call.Block().Dominates(cv.Block()) {
+						if b, ok := cv.Type().Underlying().(*types.Basic); ok && b.Kind() == types.String {
+							raw = true
+						}
+					}
+				})
+				if !raw {
+					for _, r := range set {
+						tableOK[r] = true
+					}
+				}
+			})
+		}
 		var missing []string
-		for _, r := range e.need {
-			if !cases[r] {
+		for _, r := range need {
+			if !cases[r] && !tableOK[r] {
 				missing = append(missing, fmt.Sprintf("%q", r))
 			}
 		}
-		r4.Cond(len(missing) == 0, e.fn+" escapes the required characters", p.Pos(fn.Pos()), fmt.Sprintf("%d escaping cases", len(cases)), "no escaping case for "+strings.Join(missing, " "))
+		r4.Cond(len(missing) == 0, e.fn+" escapes the required characters", p.Pos(fn.Pos()), fmt.Sprintf("%d escaping cases, %d characters escaped through a table test, %d required", len(cases), len(tableOK), len(need)), "no escaping case for "+strings.Join(missing, " ")+": the tokenizer refuses these characters in an unquoted URL (bad-url)")
 	}
 	// no escaper hands its input back unescaped (a fast path must test every character that needs escaping)
 	for _, e := range []esc{{"serializeStringValue", []rune{'"', '\\', '\n', '\r', '\f'}}, {"serializeURL", []rune{'"', '\\', '\n', '\r', '\f', '\'', ' ', '\t', '(', ')'}}, {"serializeName", nil}} {
@@ -765,4 +802,34 @@ func c20HexEscapesEndWithSpace(c *core.Check) {
 	if n == 0 {
 		r.Anchor("css/parser: the hexadecimal escape constants of the serializers")
 	}
+}
+
+// c20RefusedInURL lists the characters that end an unquoted URL with an error in the tokenizer: the members of the
+// constant sets that (*tokenizer).consumeUrl tests a character against (NUL excepted: the preprocessing replaces it).
+func c20RefusedInURL(p *core.Prog) []rune {
+	fn := p.Lookup("css/parser.(*tokenizer).consumeUrl")
+	if fn == nil {
+		return nil
+	}
+	seen := map[rune]bool{}
+	var out []rune
+	core.Instrs(fn, func(in ssa.Instruction) {
+		call, ok := in.(*ssa.Call)
+		if !ok {
+			return
+		}
+		callee := call.Call.StaticCallee()
+		if callee == nil || callee.Pkg == nil || callee.Pkg.Pkg.Path() != "strings" || callee.Name() != "ContainsRune" || len(call.Call.Args) != 2 {
+			return
+		}
+		if set, ok := core.ConstStr(call.Call.Args[0]); ok {
+			for _, r := range set {
+				if r != 0 && !seen[r] {
+					seen[r] = true
+					out = append(out, r)
+				}
+			}
+		}
+	})
+	return out
 }
